@@ -132,7 +132,7 @@ def _eq_variant(cls, kind):
 
 def run_scenario(dist, cfg, attach_at, vals, reattach=0, expr_guard=False, two=False,
                  same_cls=False, inst_bound=False, lkind=None, only=None):
-    """attach_at: 0, 1, 2 = L3 attached before the 1st / 2nd / after the 2nd event; None = never."""
+    """attach_at: 0, 1, 2 = L3 attached before the 1st / 2nd / 3rd event; None = never."""
     asyn = cfg.engine == "async"
     if same_cls:
         # L1 and L2 are two instances of one class: L2 provides exactly what L1 provides
@@ -188,7 +188,9 @@ def run_scenario(dist, cfg, attach_at, vals, reattach=0, expr_guard=False, two=F
     typed = {}
     for (pv, nm), v in vals.items():
         typed[(pv, nm)] = v
-    for i in range(2):
+    # three events: a->b, b->a, a->b again - a listener attached at position 2 meets callback
+    # groups that have already run for the very same event
+    for i in range(3):
         for k, p in enumerate(insts):
             if attach_at == i and uses_l3 and k == 0:
                 l3 = l3cls()
